@@ -14,6 +14,45 @@ def run(tier, seed):
     rep.add_case_results(run_cases(leaf.specs(("weak",), tier) + bitbuffer.weak_specs() + arr), "T1")
     progs = programs_for(tier, seed)
     run_pipeline(rep, progs, ["C08"])
+    # truncation through the public call forms (T(x), T.read, T.reads on buffers and streams), at every cut: a value that is
+    # returned from a cut input must be the value of the complete input, anything else must raise
+    import io
+
+    from runtime.bounded import Bounded
+    from runtime.sig import repr_value
+    from t2 import sets
+    from t2.family import Program
+
+    b = Bounded("truncation-through-call-forms", "family F singles + (char | char[4] | int24) x (u8, u32, i24, a_char_4) pairs, both readers: every cut length 0..extent-1 x {T(bytes), T(bytearray), T.reads, T.read(stream), T(stream)}")
+    tprogs = [p for p in sets.singles(endians=("<",), aligns=(False,)) if not any(k in sets.EOF_KINDS for k in p.kinds)]
+    tprogs += [Program([a, q], "<", al) for a in ("char", "a_char_4", "i24", "wchar") for q in ("u8", "u32", "i24", "a_char_4") for al in (False, True)]
+    full = bytes((i * 29 + 7) % 250 + 1 for i in range(24)) + bytes(8) + bytes((i * 13 + 1) % 250 + 1 for i in range(16))
+    for p in tprogs:
+        for compiled in (False, True):
+            try:
+                T = p.load(compiled).T
+                s0 = io.BytesIO(full)
+                ref = T._read(s0)
+                extent = s0.tell()
+                want = repr_value(ref)
+            except Exception:  # noqa: BLE001
+                continue
+            from t2.cases import data_extent
+
+            need = data_extent(T) if T.size is not None else extent
+            for cut in range(0, need):
+                data = full[:cut]
+                bad = []
+                for form, fn in (("T(bytes)", lambda d: T(d)), ("T(bytearray)", lambda d: T(bytearray(d))), ("T.reads", lambda d: T.reads(d)),
+                                 ("T.read(stream)", lambda d: T.read(io.BytesIO(d))), ("T(stream)", lambda d: T(io.BytesIO(d)))):
+                    try:
+                        got = repr_value(fn(data))
+                        if got != want:
+                            bad.append(f"{form} returns {str(got)[:120]} from {cut} of {need} data bytes (complete input gives {str(want)[:120]})")
+                    except Exception:  # noqa: BLE001 - refusing a cut input is what is asked (the exception type is the T2 clause)
+                        pass
+                b.case((p.key(), compiled, cut), not bad, observed="; ".join(bad)[:500], inputs={"definition": p.text.split(chr(10))[-1], "compiled": compiled, "cut": cut, "data": data.hex()})
+    b.add_to(rep)
     rep.extra["explanation"] = (
         "T1 (weak stream contract: read(n) may deliver any 0..n bytes or raise): every leaf reader and BitBuffer.read return only if "
         "every read delivered exactly what was asked, raise EOFError on a short delivery and let a stream fault propagate; the array entry "
